@@ -2,14 +2,19 @@
 
 Generator: catalogue entry (every proximal factory of proximal_operators.py
 called directly with its documented objective, every Functional class with a
-proximal) x parameters x space (rn, const-/array-weighted rn, uniform_discr
-with/without boundary nodes, weighted power / product spaces, matrix-valued
-power spaces) x step (scalar, element-valued, array-like, per-component list)
-x derived-functional grammar (translation, argument scaling, left scaling,
-quadratic perturbation, + constant, convex conjugate through Moreau,
-separable sums, Bregman distances, composition with a scaled unitary
-operator), both through the Functional API and through the calculus rules of
-the factory module.
+proximal, `simple_functional` with user-supplied proximal factories) x
+parameters x space (rn, const-/array-weighted rn, uniform_discr with/without
+boundary nodes, weighted power / product spaces, matrix-valued power spaces;
+for the objectives that are defined through the modulus |x_i| - norms, norm
+balls, Huber, constants, IndicatorZero - also cn, weighted cn, complex
+discretizations and product spaces of them, complex128 and complex64) x step
+(scalar, element-valued, array-like, per-component list) x
+derived-functional grammar (translation, argument scaling by a scalar / a
+space element / a plain sequence, left scaling, quadratic perturbation,
++ constant, convex conjugate through Moreau, separable sums, Bregman
+distances, composition with a scaled unitary operator), both through the
+Functional API (operator syntax / methods and the class constructors) and
+through the calculus rules of the factory module.
 Oracle: strong-convexity optimality certificate evaluated on the independent
 value reference ``vlib/ref/funcvalues.py``; feasibility on reference
 constraint residuals; firm non-expansiveness; idempotence and step
@@ -32,7 +37,8 @@ TECHNIQUE = ('Hypothesis property-based testing over a functional/proximal '
              'non-expansiveness, projection idempotence; descriptor replay')
 LEVEL_TEXT = ('Generated-input search: every proximal factory and every '
               'Functional class with a proximal is built on rn, weighted rn, '
-              'uniform discretizations and product spaces with scalar / '
+              'uniform discretizations and product spaces (modulus-type '
+              'objectives also on their complex counterparts) with scalar / '
               'element / list steps and wrapped by the calculus rules; the '
               'returned point p is certified by F(z) - F(p) >= |z-p|^2/(2 '
               'sigma) on ~100 probes z per case (perturbations at six scales, '
@@ -50,7 +56,7 @@ LEVEL_NOTE = ('Trusted: NumPy/long double, scipy.optimize (probes only; any '
               'in every case). Conjugates without closed form are certified '
               'through the exact Moreau reduction onto the primal.')
 DESIGN_REF = 'DESIGN.md section 5, C07'
-BUDGET = {'quick': 5000, 'thorough': 80000}
+BUDGET = {'quick': 4600, 'thorough': 80000}
 K_TOL = 1e3
 EPS = float(np.finfo(float).eps)
 TOLERANCES = {
@@ -85,13 +91,27 @@ TOLERANCES = {
                                      '(projections obtained through Moreau '
                                      'carry the absolute 10*resolution '
                                      'shrink times sigma)',
-    'reference norm': '| |x|_ref - space.norm(x) | <= 64*eps*n*|x|',
+    'reference norm': '| |x|_ref - space.norm(x) | <= 64*eps*n*|x| (n = '
+                      'real dimension; complex spaces: real-ified weights)',
 }
 ASSUMPTIONS = [
-    'real float64 and float32 spaces with exponent 2 (the proximal needs a '
-    'Hilbert space), one dtype per product space; complex spaces are '
-    'outside the generator; every tolerance is stated in eps(dtype) of the '
-    'space under test',
+    'float64 / float32 / complex128 / complex64 spaces with exponent 2 (the '
+    'proximal needs a Hilbert space), one dtype per product space; every '
+    'tolerance is stated in eps(dtype) of the space under test',
+    'complex spaces are real-ified ((re, im) pairs, each weight twice): '
+    '|z - x|^2 is the squared norm of the complex space, |x_i| the modulus; '
+    'generated there: objectives defined through the modulus only (1-, 2-, '
+    'inf-norms and their balls, squared 2-norm, group norms / balls, Huber '
+    'on scalar fields, constants, IndicatorZero, simple_functional), not '
+    'the order-based ones (boxes, non-negativity, simplex, sum constraint, '
+    'KL family) nor nuclear norms; rules: translation, real scalings, '
+    'a |.|^2 (no linear term <., u>, whose documented value is not real '
+    'there), + c, conjugation (Moreau in the real-ified space, i.e. the '
+    'pairing Re <.,.>, the one under which the library\'s own explicit '
+    'conjugates L1 <-> inf-ball, L2 <-> 2-ball hold), composition with a '
+    'real multiple of the identity, separable sums; complex scalings only '
+    'as the documented rejection; per-point steps are real positive '
+    'elements (zero imaginary part)',
     'parameters inside the documented convex range (lam > 0, sigma > 0, '
     'gamma >= 0, a >= 0, positive priors); values outside are generated only '
     'as expected rejections',
@@ -120,22 +140,22 @@ ASSUMPTIONS = [
     'documented as 0.0)',
 ]
 RULE = ('Hypothesis draws (entry, parameters, space, rule chain, step, x, y, '
-        'probe seed) from the catalogue in vlib/zoo_prox.py; a fixed '
+        'probe seed) from the catalogue in vlib/zoo_prox.py (complex leaves '
+        'for about one case in five of the modulus-type entries); a fixed '
         'derandomised sweep adds >= 2 cases per (entry x space kind x '
-        'weighting kind) and per (entry x space kind x parameter class) '
-        'cell; non-trivial = certificate evaluated on >= 10 '
-        'finite probes and p != x and p != 0 and dimension >= 2; distinct by '
-        'sha1 of the case descriptor')
-EXHAUSTIVE = {
-    'quick': ['derandomised sweep: 2 cases for every cell (catalogue entry x '
-              'admissible space kind x leaf kind in {rn, const, array, discr, '
-              'rn float32, discr float32}) and (catalogue entry x space kind '
-              'x parameter class)'],
-    'thorough': ['derandomised sweep: 6 cases for every cell (catalogue '
-                 'entry x admissible space kind x leaf kind in {rn, const, '
-                 'array, discr, rn float32, discr float32}) and (catalogue '
-                 'entry x space kind x parameter class)'],
-}
+        'weighting kind), per (modulus-type entry x space kind x complex '
+        'leaf kind), per (entry x space kind x parameter class) cell, per '
+        '(base x doubled rule) and per (factory with per-point steps x '
+        'sequence scaling) cell; non-trivial = certificate evaluated on >= '
+        '10 finite probes and p != x and p != 0 and dimension >= 2; '
+        'distinct by sha1 of the case descriptor')
+_SWEEP = ('derandomised sweep: {} cases for every cell (catalogue entry x '
+          'admissible space kind x leaf kind in {{rn, const, array, discr, '
+          'rn float32, discr float32}}), (modulus-type entry x space kind x '
+          'leaf kind in {{cn, array-weighted cn, complex discr, cn '
+          'complex64}}), (catalogue entry x space kind x parameter class), '
+          '(7 bases x 5 doubled rules) and (4 factories x sequence scaling)')
+EXHAUSTIVE = {'quick': [_SWEEP.format(2)], 'thorough': [_SWEEP.format(6)]}
 STRICT = os.environ.get('C07_STRICT') == '1'
 
 # --------------------------------------------------------------------------
@@ -198,9 +218,30 @@ def _wrap(draw, fd, e, rsp, mode, exp_type, el_ok, chain=None):
         rule = 'argscale'
     if rule == 'compose' and exp_type:
         rule = 'translated'
+    # complex spaces: rules whose documented objective involves <x, u> (not
+    # real-valued there) or a real matrix / element-wise scaling are not
+    # generated; translation, real scalings, a |.|^2, + c, conjugation and
+    # composition with a real multiple of the identity are
+    cplx = rsp.cplx
+    if cplx and rule == 'bregman':
+        rule = 'translated'
+    if cplx and rule == 'argscale_el':
+        rule = 'argscale'
+    # functional mode: operator syntax / method, or the class constructor
+    via = ('class' if mode == 'functional' and
+           draw(st.integers(0, 3)) == 0 else None)
     if rule == 'translated':
-        return {'t': 'translated', 'f': fd,
+        node = {'t': 'translated', 'f': fd,
                 'y': draw(zoo.vecs(n, scale=1.0))}
+        if via:
+            node['via'] = via
+        return node
+    if rule == 'argscale' and cplx and not chain and \
+            not zoo.is_linear_tree(fd) and draw(st.integers(0, 5)) == 0:
+        # complex scaling: documented as not supported (ValueError)
+        return {'t': 'argscale', 'f': fd,
+                's': {'re': draw(st.sampled_from([1.0, 0.0, -2.0])),
+                      'im': draw(st.sampled_from([1.0, -0.5]))}}
     if rule == 'argscale':
         if chain:
             s = draw(st.sampled_from([0.5, 2.0, -2.0, -0.5] if exp_type
@@ -211,13 +252,20 @@ def _wrap(draw, fd, e, rsp, mode, exp_type, el_ok, chain=None):
             if (direct and e.name in ZERO_SCALE_OK and
                     not _has_rejection(fd) and draw(st.booleans())):
                 s = 0.0
-        return {'t': 'argscale', 'f': fd, 's': s}
+        node = {'t': 'argscale', 'f': fd, 's': s}
+        if via and s != 0.0:
+            node['via'] = via
+        return node
     if rule == 'argscale_el':
         v = zoo.vec(draw(zoo.vecs(n, positive=True)), n)
         sign = zoo.vec(draw(zoo.vecs(n)), n)
         v = np.where(sign < 0, -v, v)
-        return {'t': 'argscale', 'f': fd,
+        node = {'t': 'argscale', 'f': fd,
                 's': {'data': [float(t) for t in v]}}
+        if rsp.parts is None and (chain or draw(st.booleans())):
+            # a plain sequence of floats instead of a space element
+            node['as'] = draw(st.sampled_from(['list', 'array']))
+        return node
     if rule == 'leftscale':
         s = draw(st.sampled_from([0.5, 2.0, 3.0, 0.25, 1.0]) if exp_type
                  else zoo.pos_scalars())
@@ -231,7 +279,10 @@ def _wrap(draw, fd, e, rsp, mode, exp_type, el_ok, chain=None):
             s = -s
         elif k == 1:
             s = 0.0
-        return {'t': 'leftscale', 'f': fd, 's': s}
+        node = {'t': 'leftscale', 'f': fd, 's': s}
+        if via and s != 0.0:
+            node['via'] = via
+        return node
     if rule == 'quadpert':
         a = draw(st.sampled_from([0.5, 1.0, 3.0, 0.1] if chain else
                                  [0.0, 0.5, 1.0, 3.0, 0.1, 0.0]))
@@ -239,12 +290,17 @@ def _wrap(draw, fd, e, rsp, mode, exp_type, el_ok, chain=None):
             a = -1.0
         u = (draw(zoo.vecs(n, scale=0.2 if exp_type else 1.0))
              if draw(st.booleans()) else None)
+        if cplx:
+            u = None
         node = {'t': 'quadpert', 'f': fd, 'a': a, 'u': u}
         if mode == 'functional':
             node['c'] = draw(zoo.CONSTS)
         return node
     if rule == 'addconst':
-        return {'t': 'addconst', 'f': fd, 'c': draw(zoo.CONSTS)}
+        node = {'t': 'addconst', 'f': fd, 'c': draw(zoo.CONSTS)}
+        if via:
+            node['via'] = via
+        return node
     if rule == 'conj':
         return {'t': 'conj', 'f': fd}
     if rule == 'bregman':
@@ -252,7 +308,8 @@ def _wrap(draw, fd, e, rsp, mode, exp_type, el_ok, chain=None):
                 'via': draw(st.sampled_from(['method', 'class']))}
     if rule == 'compose':
         plain = (rsp.parts is None and len(rsp.shape) == 1 and
-                 rsp.leaf_kind() == 'unit' and rsp.sd['kind'] == 'tensor')
+                 rsp.leaf_kind() == 'unit' and rsp.sd['kind'] == 'tensor'
+                 and not cplx)
         if plain and draw(st.booleans()):
             op = {'kind': 'orth', 'seed': draw(st.integers(0, 10 ** 6)),
                   'c': draw(st.sampled_from([1.0, 2.0, 0.5, -1.0, 3.0]))}
@@ -279,7 +336,8 @@ def _sigma(draw, kinds, rsp, exp_type, nparts=None):
     if kind == 'list':
         return {'kind': 'list',
                 'values': [draw(sig) for _ in range(nparts)]}
-    return {'kind': kind, 'vec': draw(zoo.vecs(rsp.size, positive=True))}
+    # one positive step per point (entry) of the space
+    return {'kind': kind, 'vec': draw(zoo.vecs(rsp.npoints, positive=True))}
 
 
 def depth_ok_for_chain(fd, e, rsp, site):
@@ -292,7 +350,7 @@ def _tree_on(draw, e, kind, sizes, wkinds=None, max_depth=3,
              force_depth=None, force=None, dtype=None, chain_rule=None):
     """(space descriptor, tree, mode, admissible sigma kinds).  ``wkinds``
     None = random leaf kind, else the forced kinds of the (first) leaf."""
-    lk = wkinds or zoo.LEAF_KINDS_RANDOM
+    lk = wkinds or zoo.leaf_kinds_random(e)
     if kind == 'T':
         sd = draw(zoo.leaf_spaces(sizes=sizes, kinds=lk, dtype=dtype))
     elif kind == 'P':
@@ -304,9 +362,9 @@ def _tree_on(draw, e, kind, sizes, wkinds=None, max_depth=3,
         sd = {'kind': 'pspace', 'base': base, 'power': n,
               'weighting': draw(zoo._pweight(n)), 'exponent': 2.0}
     elif kind == 'G':
-        sd = draw(zoo.general_spaces(dtype=dtype, first_kinds=wkinds))
+        sd = draw(zoo.general_spaces(dtype=dtype, first_kinds=lk))
     else:
-        sd = draw(zoo.matrix_spaces(dtype=dtype, kinds=wkinds))
+        sd = draw(zoo.matrix_spaces(dtype=dtype, kinds=lk))
     rsp = R.RSpace(sd)
     fd = draw(_leaf_tree(e, rsp, force))
     mode = e.mode
@@ -328,6 +386,11 @@ def _tree_on(draw, e, kind, sizes, wkinds=None, max_depth=3,
         depth = 0
     el_ok = 'element' in e.sigma_kinds
     kinds = list(e.sigma_kinds)
+    if (e.name == 'Huber' and zoo.known_region(site, rsp) and
+            chain_rule is None and draw(st.booleans())):
+        # Huber.convex_conj is explicit: its proximal does not use the
+        # (known-finding) proximal of the Huber leaf
+        return sd, {'t': 'conj', 'f': fd}, mode, ['scalar'], exp_type
     # consecutive identical rules on purpose ((f * a) * b, a * (b * f),
     # f.translated(y).translated(z), ...): the library merges some of these
     if chain_rule is not None and not exp_type and depth_ok_for_chain(
@@ -347,6 +410,10 @@ def _tree_on(draw, e, kind, sizes, wkinds=None, max_depth=3,
             kinds = ['scalar']
         if _has_rejection(fd):
             break
+    if fd['t'] != 'leaf':
+        # derived trees stay outside the step-dependent known regions
+        kinds = [k for k in kinds
+                 if not zoo.known_step_region(site, rsp, k)] or ['scalar']
     return sd, fd, mode, kinds, exp_type
 
 
@@ -388,6 +455,10 @@ def _case(draw, tier, cell=None):
         power = draw(st.integers(0, 3)) == 0
         parts, sds, exp_type = [], [], 0
         dt = draw(st.sampled_from(['float64'] * 5 + ['float32']))
+        if e.complex_ok and draw(st.integers(0, 4)) == 0:
+            # all summands on complex spaces
+            dt = 'complex128'
+            pool = [x for x in pool if x.complex_ok]
         for i in range(nparts):
             ei = e if i == 0 else draw(st.sampled_from(pool))
             ki = kind if i == 0 else draw(st.sampled_from(
@@ -472,12 +543,21 @@ def _cells():
         for kind in e.kinds:
             for wk in LEAF_WKINDS:
                 cells.append((e.name, kind, wk, None))
+            if e.complex_ok:
+                # modulus-type objectives on complex spaces
+                for wk in zoo.CPLX_LEAF_KINDS:
+                    cells.append((e.name, kind, wk, None))
             if len(e.classes) > 1:
                 for ci in range(len(e.classes)):
                     cells.append((e.name, kind, None, ci))
     for name in CHAIN_BASES:
         for rule in CHAIN_RULES:
             cells.append((name, 'T', None, None, rule))
+    # scaling by a plain sequence of floats (factories that document
+    # per-point steps), followed by a scalar scaling
+    for e in zoo.ENTRIES:
+        if e.mode == 'factory' and 'element' in e.sigma_kinds:
+            cells.append((e.name, 'T', None, None, 'argscale_el'))
     return cells
 
 
@@ -683,13 +763,20 @@ def _sigma_objects(sg, space, rsp):
         flat_s = np.concatenate([np.full(p.size, v)
                                  for p, v in zip(rsp.parts, vals)])
         return vals, flat_s
-    v = zoo.vec(sg['vec'], n)
+    v = zoo.vec(sg['vec'], rsp.npoints)
+    if rsp.cplx:
+        # a "pointwise positive space element" of a complex space: positive
+        # real parts, zero imaginary parts; one step per (re, im) pair
+        vflat = np.repeat(v, 2)
+        vel = np.stack([v, np.zeros_like(v)], axis=-1).ravel()
+    else:
+        vflat = vel = v
     if kind == 'element':
-        return flat.unflat(v, space), v
+        return flat.unflat(vel, space), vflat
     if kind == 'arraylike':
         if rsp.parts is None:
-            return v.reshape(rsp.shape).tolist(), v
-        return flat.unflat(v, space), v
+            return v.reshape(rsp.shape).tolist(), vflat
+        return flat.unflat(vel, space), vflat
     raise HarnessError('sigma kind ' + kind)
 
 
@@ -739,7 +826,12 @@ def _run_case(desc):
         return _run_tree(desc)
     except Violation as v:
         fd = desc['func']
-        if fd['t'] == 'leaf':
+        if fd['t'] == 'leaf' or (
+                zoo.conj_bypasses_leaf(fd, desc['mode']) and
+                zoo.known_region('Huber', R.RSpace(desc['space']))):
+            # (the explicit conjugate of Huber does not use the proximal of
+            # its operand, which is a known finding on this space: nothing
+            # to localise)
             raise
         for sub in _sub_cases(desc):
             try:
@@ -885,6 +977,7 @@ def _run_tree(desc):
               'leafw:' + rsp.leaf_kind(), 'prodw:' + rsp.prod_kind(),
               'sigma:' + sk, 'spacekind:' + zoo.space_label(rsp),
               'dtype:' + rsp.dtype,
+              'field:' + ('complex' if rsp.cplx else 'real'),
               'dim:' + ('tiny' if n <= 4 else 'small' if n <= 24
                         else 'medium'),
               'depth:{}'.format(_depth(fd)), 'xmode:' + desc['xmode'],
@@ -894,14 +987,22 @@ def _run_tree(desc):
         strata.append('entry:' + nm)
     for r in _rules(fd):
         strata.append('rule:{}:{}'.format(mode, r))
+    for r in _via_class(fd):
+        strata.append('via-class:' + r)
     for c in _chains(fd):
         strata.append('chain:' + c)
+    if rsp.cplx:
+        strata.append('complex-entry:' + entry_names[0])
+        for r in _rules(fd):
+            strata.append('complex-rule:{}:{}'.format(mode, r))
     if _is_discr(sd):
         strata.append('discr:' + ('bdry' if _has_bdry(sd) else 'nobdry'))
 
     # derived trees stay outside the known-finding regions (the leaves
     # themselves are exercised there directly)
-    if derived and any(zoo.known_region(s, rs) for s, rs in leaves):
+    if zoo.conj_bypasses_leaf(fd, mode):
+        strata.append('conj-bypasses-known-leaf')
+    if derived and zoo.uses_known_leaf(fd, rsp, sk, mode):
         return Outcome('excluded', strata=strata + ['excluded:known-leaf'])
 
     space = build.build_space(sd)
@@ -1114,7 +1215,14 @@ def _value_byproduct(func, ref, p_el, pv, x, xv, notes, ctx):
     boundary-rounding cases of indicators."""
     for el, v in ((p_el, pv), (x, xv)):
         try:
-            lib = float(func(el))
+            lib = func(el)
+            if isinstance(lib, complex) or np.iscomplexobj(lib):
+                # functionals on complex spaces return field elements
+                if complex(lib).imag != 0:
+                    notes['value_complex'] = notes.get('value_complex', 0) + 1
+                    continue
+                lib = complex(lib).real
+            lib = float(lib)
         except Exception:  # noqa
             notes['value_call_failed'] = notes.get('value_call_failed', 0) + 1
             continue
@@ -1188,6 +1296,19 @@ def _rules(fd):
     return [zoo.rule_name(fd)] + _rules(fd['f'])
 
 
+def _via_class(fd):
+    """rules built through the class constructor"""
+    if fd['t'] == 'leaf':
+        return []
+    if fd['t'] == 'sepsum':
+        out = []
+        for p in fd['parts']:
+            out.extend(_via_class(p))
+        return out
+    return ([fd['t']] if fd.get('via') == 'class' and fd['t'] != 'bregman'
+            else []) + _via_class(fd['f'])
+
+
 def _chains(fd):
     """consecutive identical rules along the spine of the tree"""
     out = []
@@ -1224,8 +1345,9 @@ REQUIRED_STRATA = (
                                       'quadpert', 'addconst', 'conj',
                                       'bregman', 'sepsum')] +
     ['rule:factory:' + r for r in ('translated', 'argscale', 'argscale_el',
-                                   'argscale_zero', 'quadpert', 'conj',
-                                   'compose', 'sepsum')] +
+                                   'argscale_seq', 'argscale_zero',
+                                   'quadpert', 'conj', 'compose',
+                                   'sepsum')] +
     ['leafw:unit', 'leafw:const', 'leafw:nonuniform', 'prodw:none',
      'prodw:const', 'prodw:array', 'sigma:scalar', 'sigma:element',
      'sigma:arraylike', 'sigma:list', 'spacekind:tensor', 'spacekind:discr',
@@ -1234,5 +1356,15 @@ REQUIRED_STRATA = (
      'discr:bdry', 'discr:nobdry', 'dim:tiny', 'dim:small', 'dim:medium',
      'scipy', 'reduced', 'indicator-clauses', 'rejected:nie',
      'rejected:value', 'call:plain', 'call:inplace', 'call:alias',
-     'dtype:float32', 'dtype:float64', 'lib-value-clause'] +
+     'dtype:float32', 'dtype:float64', 'dtype:complex128',
+     'dtype:complex64', 'field:real', 'field:complex', 'lib-value-clause',
+     'conj-bypasses-known-leaf'] +
+    ['via-class:' + r for r in ('translated', 'argscale', 'leftscale',
+                                'addconst')] +
+    ['complex-entry:' + e.name for e in zoo.ENTRIES if e.complex_ok] +
+    ['complex-rule:functional:' + r for r in (
+        'translated', 'argscale', 'leftscale', 'quadpert', 'addconst',
+        'conj', 'sepsum')] +
+    ['complex-rule:factory:' + r for r in (
+        'translated', 'argscale', 'quadpert', 'conj', 'compose', 'sepsum')] +
     ['chain:{0}-{0}'.format(r) for r in CHAIN_RULES])
